@@ -307,3 +307,19 @@ def compatible_frame(draw, fr, thorough=False, rows=None, same_categories=False)
     if fr.get("index") is not None:
         idx = draw(column(fr["index"]["name"], thorough=thorough, like=fr["index"], nulls=False))
     return {"n": n, "cols": cols, "index": idx}
+
+
+def pin_object_schema(fr):
+    """The stored type of an object column is inferred from its first non-null values; a
+    create frame whose text/bytes/json column is entirely null would pin a different schema
+    than later batches need.  Make sure such columns hold at least one value."""
+    for c in fr["cols"] + ([fr["index"]] if fr.get("index") else []):
+        if c["kind"] in ("text", "bytes", "json") and (c.get("null") or {}).get("pat") in ("all",):
+            c["null"] = {"pat": "last_only", "mask": []}
+        if c["kind"] in ("text", "bytes", "json") and (c.get("null") or {}).get("pat") in ("first_only", "last_only", "all_but_one") and fr["n"] == 1:
+            c["null"] = {"pat": "none", "mask": []}
+        if c["kind"] in ("text", "bytes", "json") and (c.get("null") or {}).get("pat") == "some":
+            m = c["null"]["mask"]
+            if m and all(m[i % len(m)] for i in range(max(1, fr["n"]))):
+                c["null"] = {"pat": "none", "mask": []}
+    return fr
